@@ -166,7 +166,8 @@ func (eval Evaluator) PartialTracesSum(ctIn *Ciphertext, offset, n int, opOut *C
 
 	ringQ := ringQP.RingQ
 
-	opOut.Resize(opOut.Degree(), levelQ)
+	// The result has degree 1: a receiver of larger degree must not keep its old components.
+	opOut.Resize(1, levelQ)
 	*opOut.MetaData = *ctIn.MetaData
 
 	ctInNTT, err := NewCiphertextAtLevelFromPoly(levelQ, eval.BuffCt.Value[:2])
